@@ -33,12 +33,12 @@ def run(F, S, R, tier):
         for nm, b in names.items():
             drop = set()
             for i in range(1, b.argc + 1):
-                if b.local_names().get(i) == "skip_script_verify":
+                if (b.rec.get("locals") or [])[i:i + 1] == ["bool"]:   # the skip_script_verify flag is the only bool parameter
                     drop = K.same_bool_edges(b, i, False)
             K.mustcall(R, "sibling/contextual/" + nm, b, [r"TimeRelativeTransactionVerifier::<.*>::verify$", r"CapacityVerifier::verify$", script[nm], r"FeeCalculator::<.*>::transaction_fee$"],
                        S, drop_edges=drop, what="contextual transaction verification step")
             for c in b.calls_to(script[nm]):
-                mc = [a for a in c.args if K.src_match(b.operand_sources(a), [r"param:max_cycles|upvar:max_cycles"])]
+                mc = [a for a in c.args if K.src_match(b.operand_sources(a), [r"^param:\d+$|^upvar:"])]
                 if mc:
                     R.ok("sibling/contextual/%s/limit" % nm, "script run is bounded by the caller's max_cycles", [c.where()])
                 else:
@@ -94,7 +94,7 @@ def run(F, S, R, tier):
                         R.bad("mustfail/resolve-status/" + var, "CellStatus::%s can resolve successfully" % var, [c.where(arms[0][0])])
                     else:
                         R.ok("mustfail/resolve-status/" + var, "CellStatus::%s is rejected" % var, [c.where(arms[0][0])])
-            if K.src_match(c.operand_sources(c.calls_to(r"HashSet::<.*>::contains$")[0].args[0]), [r"upvar:seen_inputs"]):
+            if K.src_match(c.operand_sources(c.calls_to(r"HashSet::<.*>::contains$")[0].args[0]), [r"vty:&mut .*HashSet<.*OutPoint"]):
                 R.ok("prov/resolve-seen", "the resolver consults the caller's seen_inputs set", [c.where()])
             else:
                 R.bad("prov/resolve-seen", "the resolver's spent-set is not the caller's seen_inputs", [c.where()])
@@ -113,7 +113,7 @@ def run(F, S, R, tier):
                 R.ok("mustfail/resolve-dup-input", "an input repeated inside one transaction is rejected as Dead", [ins[0].where()])
         K.mustcall(R, "mustcall/resolve-success", rt, [r"Extend::extend$", r"resolve_transaction_deps_with_system_cell_cache$"], S, what="a resolved transaction marks its inputs spent and resolves its deps")
         ext = rt.calls_to(r"Extend::extend$")
-        if ext and K.src_match(rt.operand_sources(ext[0].args[0]), [r"param:seen_inputs"]) and K.src_match(rt.operand_sources(ext[0].args[1]), [r"var:current_inputs"]):
+        if ext and K.src_match(rt.operand_sources(ext[0].args[0]), [r"vty:&mut .*HashSet<.*OutPoint"]) and K.src_match(rt.operand_sources(ext[0].args[1]), [r"vty:std::collections::hash::set::HashSet<.*OutPoint>$"]):
             R.ok("prov/resolve-extend", "seen_inputs is extended by this transaction's inputs", [ext[0].where()])
         else:
             R.bad("prov/resolve-extend", "seen_inputs.extend(current_inputs) lost", [rt.where()])
@@ -141,7 +141,7 @@ def run(F, S, R, tier):
             K.must_fail(R, "mustfail/check-seen", ccl[0], assume=[(r"HashSet::<.*>::contains$", True)], what="re-check: spent earlier => Dead") if False else None
             c0 = ccl[0]
             cs = c0.calls_to(r"HashSet::<.*>::contains$")
-            seen_c = [x for x in cs if K.src_match(c0.operand_sources(x.args[0]), [r"upvar:seen_inputs"])]
+            seen_c = [x for x in cs if K.src_match(c0.operand_sources(x.args[0]), [r"vty:&mut .*HashSet<.*OutPoint"])]
             if seen_c:
                 drop = set()
                 for (bb, truth) in K.bool_uses(c0, seen_c[0].dest[0]):
@@ -455,7 +455,7 @@ def run(F, S, R, tier):
         else:
             b = cl[0]
             ends = {c.bb for c in b.calls_to(r"process::_submit_entry$")}
-            ne = [c for c in b.calls if c.callee.endswith("PartialEq::ne") and K.src_match(b.operand_sources(c.args[0]) | b.operand_sources(c.args[1]), [r"call:.*Snapshot::tip_hash$", r"upvar:pre_resolve_tip"])]
+            ne = [c for c in b.calls if c.callee.endswith("PartialEq::ne") and K.src_match(b.operand_sources(c.args[0]) | b.operand_sources(c.args[1]), [r"call:.*Snapshot::tip_hash$", r"vty:ckb_gen_types::generated::blockchain::Byte32$"])]
             if not ne:
                 R.bad("mustcall/pool-submit/tip-changed/anchor-lost", "pre_resolve_tip != tip_hash test not found", [b.where()])
             else:
@@ -506,8 +506,8 @@ def run(F, S, R, tier):
         cl = [b for b in K.with_nested(rb) if b.calls_to(r"cell::resolve_transaction$")]
         if len(hs) == 1 and cl:
             c = cl[0].calls_to(r"cell::resolve_transaction$")[0]
-            if K.src_match(cl[0].operand_sources(c.args[1]), [r"upvar:seen_inputs"]) and K.src_match(cl[0].operand_sources(c.args[2]), [r"upvar:cell_provider"]) \
-                    and K.src_match(cl[0].operand_sources(c.args[3]), [r"upvar:verify_context"]):
+            if K.src_match(cl[0].operand_sources(c.args[1]), [r"vty:std::collections::hash::set::HashSet<.*OutPoint>$"]) and K.src_match(cl[0].operand_sources(c.args[2]), [r"call:.*OverlayCellProvider::<.*>::new$"]) \
+                    and K.src_match(cl[0].operand_sources(c.args[3]), [r"^param:4$|vty:&HC$"]):
                 R.ok("prov/block-resolve/shared-seen", "one seen_inputs set is shared by all transactions of the block", [c.where()])
             else:
                 R.bad("prov/block-resolve/shared-seen", "block transactions are not resolved with the shared seen_inputs / overlay provider / header checker", [c.where()])
